@@ -383,6 +383,24 @@ def run(prog, rep):
     reset1_rule(prog, rep, "RESET-1")
     rep.note("register_custom_handler on a Validation built without reset=True mutates the class registry (public API misuse, "
              "outside the statement); the package itself never does so (TS-1)")
+    from .rules_lints import set_display_iteration, no_shared_fromkeys, class_level_mutables
+    set_display_iteration(prog, rep, "DET-3", ("odml.validation",))
+    no_shared_fromkeys(prog, rep, "KEYS-1", ("odml.validation",))
+    # registering is idempotent: the per class collections are sets
+    rep.rule("REG-3", "register_handler / register_custom_handler add the rule to a set (setdefault(klass, set()).add(handler)): registering a rule "
+                      "twice does not make it run - and report - twice")
+    for mname in ("register_handler", "register_custom_handler"):
+        m3 = vcls.lookup_method(mname)
+        adds = [c for c in calls_in(m3.node) if isinstance(c.func, ast.Attribute) and c.func.attr in ("add", "append", "extend", "insert")
+                and "_handlers" in unparse(c.func.value)]
+        rep.floor("REG-3", len(adds), 1, "stores into _handlers in %s" % mname)
+        for c in adds:
+            base = c.func.value
+            dflt = base.args[1] if isinstance(base, ast.Call) and isinstance(base.func, ast.Attribute) and base.func.attr == "setdefault" and len(base.args) == 2 else None
+            good = c.func.attr == "add" and (dflt is None or unparse(dflt) == "set()")
+            rep.check(good, "REG-3", "Validation.%s keeps a set per class" % mname, "set().add",
+                      "Validation.%s collects handlers with `%s`: a rule registered twice runs twice" % (mname, unparse(c)[:70]), where(m3, c),
+                      witness="register the same custom rule before every document: each issue is reported once more per registration")
     rep.assume("call resolution of odmlsa.kinds (class hierarchy + kinds); unresolved calls are listed in the evidence")
 
 
